@@ -1,6 +1,6 @@
 import CgtModel.Days
 /-! `Matcher::compute_cost_offsets` for one security: lots, Same-Day-then-FIFO consumption
-    (no 30-day rule, no splits — as in the code), apportionment of CAPRETURN/ACCUMULATION over
+    (no 30-day rule; share counts restated by each day's split factor after its trades), apportionment of CAPRETURN/ACCUMULATION over
     the shares held, the `net > Σ adjusted cost of held lots` refusal. -/
 namespace Cgt
 
@@ -66,6 +66,11 @@ def applyCaps (t : String) (ord : Int) : List (Nat × Rat) → List Lot → Exce
       .error ⟨.capReturnExceedsCost, t, ord, 0, 0, idx⟩
     else applyCaps t ord cs (applyAdj (-net) lots)
 
+/-- a SPLIT/UNSPLIT (taking effect after the day's trades) restates the share counts of every lot in the
+    new units, and its unit price inversely, so that the lot's cost is what it was -/
+def scaleLot (r : Rat) (l : Lot) : Lot :=
+  if r = 0 then l else { l with q := l.q * r, consumed := l.consumed * r, p := l.p / r }
+
 def prepassDay (t : String) (lots : List Lot) (d : Day) : Except MErr (List Lot) :=
   let lots := d.accs.foldl (fun ls v => if ls.isEmpty then ls else applyAdj v ls) lots
   match applyCaps t d.ord d.caps lots with
@@ -74,7 +79,7 @@ def prepassDay (t : String) (lots : List Lot) (d : Day) : Except MErr (List Lot)
     let lots := match d.buy with
       | some b => lots ++ [{ ord := d.ord, q := b.q, p := b.p, f := b.f }]
       | none => lots
-    .ok (d.sells.foldl (fun ls s => prepassSell d.ord s.q ls) lots)
+    .ok ((d.sells.foldl (fun ls s => prepassSell d.ord s.q ls) lots).map (scaleLot d.r))
 
 def prepass (t : String) : List Lot → List Day → Except MErr (List Lot)
   | lots, [] => .ok lots
